@@ -135,6 +135,22 @@ func (f *Frame) frameObligations(x exitPoint, xi int) {
 						whole[k] = true
 					}
 				}
+			case "held":
+				mu := f.evalC(ex.Args[0], envEntry)
+				allowed["held$"+mu.Addr.Key+mu.Addr.Path] = append(allowed["held$"+mu.Addr.Key+mu.Addr.Path], mu.Addr.Obj)
+			case "guarded":
+				mu := f.evalC(ex.Args[0], envEntry)
+				if n := e.P.Named[strings.TrimPrefix(mu.Addr.Key, "F$")]; n != nil {
+					m := map[string]*Sort{}
+					e.guardedKeys(n, strings.TrimPrefix(mu.Addr.Path, "$"), m)
+					for k := range m {
+						if strings.HasPrefix(k, "F$"+typeKey(n)+"$") {
+							allowed[k] = append(allowed[k], mu.Addr.Obj)
+						} else {
+							whole[k] = true
+						}
+					}
+				}
 			case "elems":
 				v := f.evalC(ex.Args[0], envEntry)
 				key, ls := f.elemLeaves(v.T)
